@@ -111,22 +111,26 @@ pub fn start_watchdog(prop_id: &'static str, root: PathBuf, seed: u64) {
         let mut stuck: Option<Case> = {
             let g = SLOTS.lock().unwrap();
             let mut found = None;
+            // a stuck call on a very large input (no case recorded) is slowness, not evidence; but when a small case is
+            // stuck as well - or becomes stuck within another HANG_SECS - that one is the candidate
+            let mut big_stuck_for = 0u64;
             for s in g.iter() {
                 let st = s.lock().unwrap();
                 if st.lex_since.map_or(false, |t| t.elapsed().as_secs() >= HANG_SECS) {
                     match &st.case {
-                        Some((_, c)) => found = Some(c.clone()),
-                        None => {
-                            eprintln!("INCONCLUSIVE: a lexer call on an input of more than 1 MiB did not return within {HANG_SECS} s");
-                            std::process::exit(2);
-                        }
+                        Some((_, c)) => { found = Some(c.clone()); break; }
+                        None => big_stuck_for = big_stuck_for.max(st.lex_since.map_or(0, |t| t.elapsed().as_secs())),
                     }
-                    break;
+                    continue;
                 }
                 if st.case.as_ref().map_or(false, |(t, _)| t.elapsed().as_secs() >= CHECK_SECS) {
                     eprintln!("INCONCLUSIVE: one case took more than {CHECK_SECS} s in total although no single lexer call is stuck (the harness's own work is too slow on it)");
                     std::process::exit(2);
                 }
+            }
+            if found.is_none() && big_stuck_for >= 2 * HANG_SECS + 5 {
+                eprintln!("INCONCLUSIVE: a lexer call on an input of more than 1 MiB did not return within {} s (and no call on a smaller input is stuck)", 2 * HANG_SECS);
+                std::process::exit(2);
             }
             found
         };
@@ -468,6 +472,50 @@ pub fn load_replay(path: &std::path::Path) -> Option<(String, Case)> {
     Some((prop, case))
 }
 
+fn run_sweep(sw: &dyn crate::props::Sweep, prop: &dyn Property, kf: &Known, threads: usize, stats: &mut Stats, failures: &mut Vec<Failure>, sweep_info: &mut Vec<serde_json::Value>) {
+        let ts = Instant::now();
+        let next = AtomicUsize::new(0);
+        let nchunks = sw.chunks();
+        let found: Mutex<BTreeMap<String, Failure>> = Mutex::new(BTreeMap::new());
+        let merged: Mutex<Stats> = Mutex::new(Stats::default());
+        std::thread::scope(|sc| {
+            for _ in 0..threads.min(nchunks.max(1)) {
+                sc.spawn(|| {
+                    let mut st = Stats::default();
+                    loop {
+                        let c = next.fetch_add(1, Ordering::SeqCst);
+                        if c >= nchunks {
+                            break;
+                        }
+                        sw.run_chunk(c, &mut |case: Case| {
+                            let vd = guarded_check(prop, &case);
+                            let fail = triage(prop, kf, &vd, &mut st);
+                            st.add(&vd);
+                            if let Some(v) = fail {
+                                let mut g = found.lock().unwrap();
+                                if g.len() < 64 {
+                                    let better = g.get(&v.sig).map_or(true, |old| case_size(&case) < case_size(&old.case));
+                                    if better {
+                                        g.insert(v.sig.clone(), Failure { case, violation: v, found_by: format!("sweep: {}", sw.name()) });
+                                    }
+                                }
+                            }
+                        });
+                    }
+                    merged.lock().unwrap().merge(st);
+                });
+            }
+        });
+        let st = merged.into_inner().unwrap();
+        sweep_info.push(json!({"sweep": sw.name(), "evaluations": st.evaluations, "exhaustive": sw.exhaustive(), "wall_s": ts.elapsed().as_secs_f64()}));
+        stats.merge(st);
+        let found = found.into_inner().unwrap();
+        // keep a few distinct signatures
+        for (_, f) in found.into_iter().take(4) {
+            failures.push(f);
+        }
+}
+
 pub fn run(prop: &dyn Property, kf: &Known, cfg: &RunCfg) -> Outcome {
     let t0 = Instant::now();
     let mut stats = Stats::default();
@@ -494,52 +542,12 @@ pub fn run(prop: &dyn Property, kf: &Known, cfg: &RunCfg) -> Outcome {
         }
     }
 
-    // ---- tier 1: sweeps (bounded-exhaustive and systematic families)
+    // ---- tier 1: sweeps (bounded-exhaustive and systematic families); those on very large inputs run after the random
+    // tier, so that a lexer that hangs is first met on a small input (which the watchdog can confirm in a fresh process)
     let mut sweep_info = vec![];
-    if !cfg.skip_sweeps {
-        for sw in prop.sweeps(cfg.tier, cfg.seed) {
-            let ts = Instant::now();
-            let next = AtomicUsize::new(0);
-            let nchunks = sw.chunks();
-            let found: Mutex<BTreeMap<String, Failure>> = Mutex::new(BTreeMap::new());
-            let merged: Mutex<Stats> = Mutex::new(Stats::default());
-            std::thread::scope(|sc| {
-                for _ in 0..threads.min(nchunks.max(1)) {
-                    sc.spawn(|| {
-                        let mut st = Stats::default();
-                        loop {
-                            let c = next.fetch_add(1, Ordering::SeqCst);
-                            if c >= nchunks {
-                                break;
-                            }
-                            sw.run_chunk(c, &mut |case: Case| {
-                                let vd = guarded_check(prop, &case);
-                                let fail = triage(prop, kf, &vd, &mut st);
-                                st.add(&vd);
-                                if let Some(v) = fail {
-                                    let mut g = found.lock().unwrap();
-                                    if g.len() < 64 {
-                                        let better = g.get(&v.sig).map_or(true, |old| case_size(&case) < case_size(&old.case));
-                                        if better {
-                                            g.insert(v.sig.clone(), Failure { case, violation: v, found_by: format!("sweep: {}", sw.name()) });
-                                        }
-                                    }
-                                }
-                            });
-                        }
-                        merged.lock().unwrap().merge(st);
-                    });
-                }
-            });
-            let st = merged.into_inner().unwrap();
-            sweep_info.push(json!({"sweep": sw.name(), "evaluations": st.evaluations, "exhaustive": sw.exhaustive(), "wall_s": ts.elapsed().as_secs_f64()}));
-            stats.merge(st);
-            let found = found.into_inner().unwrap();
-            // keep a few distinct signatures
-            for (_, f) in found.into_iter().take(4) {
-                failures.push(f);
-            }
-        }
+    let all_sweeps = if cfg.skip_sweeps { vec![] } else { prop.sweeps(cfg.tier, cfg.seed) };
+    for sw in all_sweeps.iter().filter(|sw| !sw.after_random()) {
+        run_sweep(sw.as_ref(), prop, kf, threads, &mut stats, &mut failures, &mut sweep_info);
     }
 
     // ---- tier 2: seeded proptest over the choice stream, NSHARDS independent runners
@@ -624,6 +632,9 @@ pub fn run(prop: &dyn Property, kf: &Known, cfg: &RunCfg) -> Outcome {
     }
     stats.merge(merged.into_inner().unwrap());
     failures.extend(found.into_inner().unwrap());
+    for sw in all_sweeps.iter().filter(|sw| sw.after_random()) {
+        run_sweep(sw.as_ref(), prop, kf, threads, &mut stats, &mut failures, &mut sweep_info);
+    }
 
     // ---- shrink and persist (at most a few distinct signatures)
     let mut by_sig: BTreeMap<String, Failure> = BTreeMap::new();
